@@ -36,6 +36,27 @@ type Report struct {
 	ntKey      string
 	discard    string
 	counters   map[string]int64
+	known      []knownEntry
+	knownHits  map[string]int64
+}
+
+// Known reports whether a violation signature matches a listed known finding (status
+// "known") of this property, and counts the hit. Enumerating executors (many oracle
+// evaluations per case) use it to exclude exactly the listed class and keep going, so a
+// known finding does not hide what lies behind it in the same case.
+func (r *Report) Known(sig string) bool {
+	r.mu.Lock()
+	defer r.mu.Unlock()
+	for _, k := range r.known {
+		if k.re.MatchString(sig) {
+			if r.knownHits == nil {
+				r.knownHits = map[string]int64{}
+			}
+			r.knownHits[k.Key]++
+			return true
+		}
+	}
+	return false
 }
 
 // Class records that the case exhibited the named class (counted once per case).
@@ -204,7 +225,7 @@ func hashString(s string) uint64 {
 // runOne executes one case, records statistics and returns a violation that is not a
 // known finding (nil otherwise). Panics inside Exec are converted to violations.
 func (r *Runner[S]) runOne(script S) (v *Violation) {
-	rep := &Report{}
+	rep := &Report{known: r.known}
 	var err error
 	func() {
 		defer func() {
@@ -226,6 +247,9 @@ func (r *Runner[S]) runOne(script S) (v *Violation) {
 	}
 	if rep.discard != "" {
 		r.st.Discards[rep.discard]++
+	}
+	for k, n := range rep.knownHits {
+		r.st.KnownHits[k] += n
 	}
 	if err != nil {
 		viol, ok := err.(*Violation)
